@@ -331,6 +331,11 @@ func (c *Ctx) ruleLifecycleHelpers(rule string) {
 				}
 			}
 		})
+		for _, l := range x.Loops(f) {
+			if !l.onlyNormalExit() {
+				ok = false
+			}
+		}
 		c.Check(rule, "getKeys#every-key", ok && branches == 0, f.Pos(), "getKeys must append every key of the given map unconditionally")
 	}
 	// clearInjected deletes the given keys from the wrapper's own data context
@@ -357,14 +362,16 @@ func (c *Ctx) ruleLifecycleHelpers(rule string) {
 			if call, isCall := in.(*ssa.Call); isCall {
 				if args, isDel := builtinCall(call, "delete"); isDel {
 					if _, isBase := x.isFieldLoad(args[0], "DataContext", "base"); isBase {
-						if s, _, isR := x.rangedSlice(args[1]); isR && x.Origin(s) == ssa.Value(f.Params[1]) {
-							ok = true
+						if s, l, isR := x.rangedSlice(args[1]); isR && x.Origin(s) == ssa.Value(f.Params[1]) {
+							_, lo, hi := x.sliceInterval(s)
+							// every key: whole slice, unconditional delete, no early way out of the loop
+							ok = lo.equal(constForm(0)) && hi.equal(x.symLen(s)) && len(x.GuardsOfInLoop(call.Block())) == 0 && l.onlyNormalExit()
 						}
 					}
 				}
 			}
 		})
-		c.Check(rule, "DataContext.Del#deletes-each-key", ok, f.Pos(), "Del must delete every given key from the injected table")
+		c.Check(rule, "DataContext.Del#deletes-each-key", ok, f.Pos(), "Del must delete every given key from the injected table: unconditionally, over the whole key list, with no early way out of the loop")
 	}
 	// prepare* bind the wrapper to its own rule builder: gw.rulebuilder = gp.rbSlice[gw.tag]
 	for _, n := range []string{"prepare", "prepareWithMultiInput"} {
